@@ -482,13 +482,13 @@ class cleanup_functools_wrapper(object):
                     if _verif.enabled:
                         _verif.emit('Save', obj=id(self.func), attr=attr)
                     delattr(self.func, attr)
+                    if _verif.enabled:
+                        _verif.emit('Del', obj=id(self.func), attr=attr)
                 except AttributeError:
                     # absent, or not the object's own (found on its class):
                     # nothing was taken away, nothing to put back
                     continue
                 self.saved_attrs[attr] = value
-                if _verif.enabled:
-                    _verif.emit('Del', obj=id(self.func), attr=attr)
         except BaseException:
             # __exit__ is not called when __enter__ fails: put back what
             # was already taken away
